@@ -25,3 +25,4 @@ from . import serialize_generic  # noqa: E402,F401
 from . import roundtrip  # noqa: E402,F401
 from . import rdflib_serialize  # noqa: E402,F401
 from . import rdflib_parse  # noqa: E402,F401
+from . import to_file  # noqa: E402,F401
